@@ -366,4 +366,140 @@ theorem pullEvents_QSyn (cs : CharSpec) (hkey : KeyTestsAgree cs) (e : Ext) (inp
     subst hev
     trivial
 
+/-! ### the two `[…]` tests agree when the ASCII space is whitespace -/
+
+theorem collapse_head (k : List Char) (h : k.head? ≠ some ' ') : (collapseSpaces ' ' k).head? = k.head? := by
+  cases k with
+  | nil => rfl
+  | cons c t =>
+    have hc : c ≠ ' ' := by intro hc; apply h; rw [hc]; rfl
+    unfold collapseSpaces
+    simp only [hc, ne_eq, not_false_eq_true, true_or, if_true, List.head?_cons]
+
+theorem collapse_last (p : Char) (k : List Char) (x : Char) (h : k.getLast? = some x) (hx : x ≠ ' ') :
+    (collapseSpaces p k).getLast? = some x := by
+  induction k generalizing p with
+  | nil => cases h
+  | cons c t ih =>
+    cases t with
+    | nil =>
+      simp only [List.getLast?_singleton, Option.some.injEq] at h
+      subst h
+      unfold collapseSpaces
+      simp only [hx, ne_eq, not_false_eq_true, true_or, if_true]
+      rfl
+    | cons d t' =>
+      rw [List.getLast?_cons_cons] at h
+      have := ih c h
+      unfold collapseSpaces
+      split
+      · cases hl : collapseSpaces c (d :: t') with
+        | nil => rw [hl] at this; cases this
+        | cons a l => rw [hl] at this; rw [List.getLast?_cons_cons]; exact this
+      · exact this
+
+theorem trim_last_not_ws (ws : Char → Bool) (x : List Char) (c : Char) (h : (trim ws x).getLast? = some c) :
+    ws c = false := by
+  unfold trim trimEnd at h
+  rw [List.getLast?_reverse] at h
+  have := List.head?_dropWhile_not ws (trimStart ws x).reverse
+  rw [h] at this
+  simpa using this
+
+theorem trim_head_not_ws (ws : Char → Bool) (x : List Char) (c : Char) (h : (trim ws x).head? = some c) :
+    ws c = false := by
+  unfold trim trimEnd at h
+  have hp : ((trimStart ws x).reverse.dropWhile ws).reverse <+: trimStart ws x := by
+    rw [← List.reverse_reverse (trimStart ws x)]
+    rw [List.reverse_prefix]
+    rw [List.reverse_reverse]
+    exact List.dropWhile_suffix _
+  obtain ⟨r, hr⟩ := hp
+  cases hk : ((trimStart ws x).reverse.dropWhile ws).reverse with
+  | nil => rw [hk] at h; cases h
+  | cons a l =>
+    rw [hk] at h hr
+    simp only [List.head?_cons, Option.some.injEq] at h
+    subst h
+    have := List.head?_dropWhile_not ws x
+    unfold trimStart at hr
+    rw [← hr] at this
+    simpa using this
+/-- with the ASCII space classified as whitespace, the parser's test for a `[…]` key (on the
+    outer-trimmed key) and the analysis' (on the key with runs of spaces collapsed) agree -/
+theorem keyTestsAgree_of_space (cs : CharSpec) (h : cs.uws ' ' = true) : KeyTestsAgree cs := by
+  intro key hk
+  cases hb : bracketedKey cs key with
+  | false => rfl
+  | true =>
+    exfalso
+    unfold bracketedKey Text.trimmed at hb
+    unfold isConfigKey at hk
+    simp only [Bool.and_eq_true, beq_iff_eq] at hb
+    dsimp only at hk hb
+    generalize hkk : key.outerTrimmed cs = k at hk hb
+    have hhead : k.head? ≠ some ' ' := by
+      intro h'
+      rw [← hkk] at h'
+      have := trim_head_not_ws _ _ _ h'
+      rw [h] at this; cases this
+    by_cases hd : hasDoubleSpace k = true
+    · simp only [hd, if_true] at hb
+      rw [collapse_head k hhead] at hb
+      cases hl : k.getLast? with
+      | none =>
+        rw [List.getLast?_eq_none_iff] at hl
+        rw [hl] at hb
+        cases hb.1
+      | some x =>
+        have hx : x ≠ ' ' := by
+          intro hx
+          rw [← hkk] at hl
+          have := trim_last_not_ws _ _ _ hl
+          rw [hx, h] at this; cases this
+        have := collapse_last ' ' k x hl hx
+        rw [hb.2] at this
+        cases this
+        rw [hb.1, hl] at hk
+        simp at hk
+    · simp only [hd, Bool.false_eq_true, if_false] at hb
+      rw [hb.1, hb.2] at hk
+      simp at hk
+
+/-! ### parser and analysis together -/
+
+/-- what remains to be asked of the events once the blocks are `UsesNone`: the two premises that
+    depend on the CONVERTER (never on the extension set): a step text is not empty and the
+    inline-quantity finder finds nothing in it; a timer's value is not text and its unit, if any,
+    is a time unit -/
+def evConvCore (α : Type) [Arith α] (env : Env) : Ev α → Bool
+  | .text t => textCoreX α env t
+  | .timer t => timerCoreX env t.val
+  | _ => true
+
+theorem evCoreX_of_QSyn (env : Env) (ev : Ev α) (h1 : QSyn env.cs ev) (h2 : evConvCore α env ev = true) :
+    evCoreX α env ev = true := by
+  cases ev with
+  | metadata k v =>
+    have h1' : bracketedKey env.cs k = false := h1
+    simp only [evCoreX, h1', Bool.not_false]
+  | ingredient i =>
+    have h1' : i.val.modifiers.val = Modifiers.empty := h1.1
+    have : Modifiers.empty.contains Modifiers.REF = false := by decide
+    simp only [evCoreX, ingrCoreX, h1', this, Bool.not_false, Bool.true_or]
+  | text t => exact h2
+  | timer t => exact h2
+  | _ => rfl
+
+/-- C02 for `CooklangParser::parse`: every block `UsesNone`, the converter-dependent premise on
+    texts and timers: the same full result under every extension set -/
+theorem parseRecipe_ext_irrelevant (env : Env) (hkey : KeyTestsAgree env.cs) (e : Ext) (input : Str)
+    (hu : UsesNoneInput env.cs input = true)
+    (hconv : (pullEvents (α := α) env.cs env.ext input).1.toList.all (evConvCore α env) = true) :
+    parseRecipe (α := α) (env.withExt e) input = parseRecipe env input := by
+  apply parseRecipe_extX env e input hu
+  rw [List.all_eq_true] at hconv ⊢
+  intro ev hev
+  exact evCoreX_of_QSyn env ev (pullEvents_QSyn env.cs hkey env.ext input hu ev hev) (hconv ev hev)
+
 end Cook
